@@ -639,7 +639,11 @@ class SymEx:
                 self.write_place(_b, s2, _dest, rv, _line, record=False)
                 self._exec(_b, _target, s2, _depth, out, _cont)
 
-            self.inline(tg, raw, st, depth, out, k2)
+            iargs = raw
+            if tg.kind == 'closure' and callee_raw and callee_raw.startswith('std::ops::Fn') and len(raw) == 2:
+                # Fn*::call*(closure, (args,)) resolved to the closure body: the body takes the arguments untupled
+                iargs = [raw[0]] + self.untuple(self.localval(st, raw[1], b))
+            self.inline(tg, iargs, st, depth, out, k2)
             return None
         # opaque in-crate call (trait fan-out or too large)
         cname = targets[0] if len(targets) == 1 else (callee_raw or name)
